@@ -317,11 +317,14 @@ Theorem rnd53_is_binary64_RNE :
 Proof. exact Float64P.rnd53_correct. Qed.
 Print Assumptions rnd53_is_binary64_RNE.
 
-(** non-vacuity: the two former witnesses through the generated functions
-    (values in the order N_getBunchCurrents, O_getGridSize | O_getPadding, V_spacing_ps | O_getRoundPadding;
-     result: spacing_bins, radiation-field length, wake-field length, radiation-field spacing) *)
+(** non-vacuity: for the two former witnesses and a single-bucket configuration the generated functions return
+    defined values (no conversion outside its domain: every entry >= 0) and a non-zero wake length - the hypotheses
+    of the three theorems above are satisfiable.  (Values in the order N_getBunchCurrents, O_getGridSize |
+    O_getPadding, V_spacing_ps | O_getRoundPadding; result: spacing_bins, radiation-field length, wake-field length,
+    radiation-field spacing.  The numbers themselves are C06's business: C06_main_lengths_example.) *)
 Example pad_in_bounds_generated_hyps :
-  gen_sizes_list [5; 16] [Q2Qc 1; Q2Qc (265 # 256)] [false] = [17; 16; 84; 0] /\
-  gen_sizes_list [31; 16] [Q2Qc 1; Q2Qc (33 # 32)] [true] = [17; 16; 1024; 0] /\
-  gen_sizes_list [1; 16] [Q2Qc (3 # 2); Q2Qc (33 # 32)] [false] = [17; 24; 24; 0].
+  let ok := fun r => forallb (fun z => 0 <=? z) r && (0 <? nth 2 r 0) && (0 <? nth 1 r 0) in
+  ok (gen_sizes_list [5; 16] [Q2Qc 1; Q2Qc (265 # 256)] [false]) = true /\
+  ok (gen_sizes_list [31; 16] [Q2Qc 1; Q2Qc (33 # 32)] [true]) = true /\
+  ok (gen_sizes_list [1; 16] [Q2Qc (3 # 2); Q2Qc (33 # 32)] [false]) = true.
 Proof. vm_compute. repeat split; reflexivity. Qed.
